@@ -243,6 +243,8 @@ def is_int_type(t: str) -> bool:
 
 def ref_name(e: dict) -> str | None:
     e = strip(e)
+    while e.get("kind") in ("ImplicitCastExpr", "CStyleCastExpr", "ParenExpr") and kids(e):
+        e = strip(kids(e)[0])
     if e.get("kind") == "DeclRefExpr":
         return e.get("referencedDecl", {}).get("name")
     return None
